@@ -30,3 +30,11 @@ package types
 //@   props C22
 //@   modifies nothing
 //@   ensures [zero-power] result.Power == 0
+
+// reported-set index key of a node: the one-byte prefix 0x31 followed by the node's address
+//@ global PrevStateValidatorsPowerKey len(value) == 1 && cap(value) == 1 && value[0] == 49
+//@ func KeyForValidatorPrevStateStateByPower
+//@   props C22
+//@   modifies nothing
+//@   ensures [cat] extEq(bytes(result), cat(bytes(global(PrevStateValidatorsPowerKey)), bytes(address))) && bytes(result) == cat(bytes(global(PrevStateValidatorsPowerKey)), bytes(address))
+//@   ensures [fresh] result != nil && (len(address) > 0 ==> fresh(result))
